@@ -2,6 +2,7 @@ package refproto
 
 import (
 	"bytes"
+	"errors"
 	"fmt"
 	"sort"
 )
@@ -35,6 +36,11 @@ type PullOpts struct {
 	// one: the (PlanExtra-1 mod n)-th of the n such entries; a single one,
 	// because such a request usually ends the session.
 	PlanExtra int
+	// HeadOnlyAbove > 0: a requested entry larger than this is asked for as a
+	// whole file, but only the index and the checksum header of the sender's
+	// answer are read and checked against the listed size; the session then
+	// ends with ErrHeadOnly (the caller hangs up: nobody wants the gigabytes).
+	HeadOnlyAbove int64
 }
 
 type FileResult struct {
@@ -48,15 +54,19 @@ type FileResult struct {
 	SumOK    bool
 }
 
+// ErrHeadOnly ends a Pull that only wanted to see a checksum header.
+var ErrHeadOnly = errors.New("refproto: head-only request answered, hanging up")
+
 type PullResult struct {
-	Status string
-	Lines  []string
-	Seed   int32
-	List   *FileList
-	Sorted []Entry
-	Files  []*FileResult
-	Stats  [3]int64
-	Stage  string // how far the session got
+	HeadOnly *SumHead // the header seen by a head-only request
+	Status   string
+	Lines    []string
+	Seed     int32
+	List     *FileList
+	Sorted   []Entry
+	Files    []*FileResult
+	Stats    [3]int64
+	Stage    string // how far the session got
 }
 
 // Pull runs a complete receiving session against a real sender.
@@ -172,6 +182,29 @@ func pullTransfer(w *Wire, o PullOpts, res *PullResult) (*PullResult, error) {
 			}
 			res.Files = append(res.Files, fr)
 			continue
+		}
+		if o.HeadOnlyAbove > 0 && e.Size > o.HeadOnlyAbove {
+			v, err := w.GetInt32()
+			if err != nil {
+				return res, err
+			}
+			if v != int32(idx) {
+				return res, fmt.Errorf("sender answered index %d to request %d", v, idx)
+			}
+			h, err := w.readSumHead()
+			if err != nil {
+				return res, err
+			}
+			res.HeadOnly = &h
+			// a sender that transmits a whole file describes it with a header of
+			// its own choosing; whatever the block length, count and remainder
+			// must describe exactly the listed size
+			if h.BlockLen <= 0 || h.Remainder < 0 || h.Remainder >= h.BlockLen || h.Count < 0 ||
+				int64(h.Count) != (e.Size+int64(h.BlockLen)-1)/int64(h.BlockLen) || int64(h.Remainder) != e.Size%int64(h.BlockLen) {
+				return res, fmt.Errorf("checksum header %+v does not describe a file of %d bytes (%q)", h, e.Size, e.Name)
+			}
+			res.Stage = "head-only"
+			return res, ErrHeadOnly
 		}
 		rp, err := w.ReadReply(o.MaxData)
 		if err != nil {
